@@ -237,7 +237,75 @@ func H_C09_completion(v *V) {
 	v.Assert(items >= 0, "the completion handler received the items")
 }
 
+type c09Run struct {
+	V   bool `short:"v"`
+	Pos struct {
+		Count int
+		Rest  []int
+	} `positional-args:"yes"`
+	log *c09Log
+}
+
+func (c *c09Run) Execute(a []string) error { return c.log.run("run", a) }
+
+// H_C09_posfault: a positional argument that does not convert - before or
+// after the terminator, as the first field or as an element of the trailing
+// slice - is a parse error, so the command must not run.
+func H_C09_posfault(v *V) {
+	log := &c09Log{}
+	run := &c09Run{log: log}
+	opts := Options(PassDoubleDash)
+	if v.Choice(2) == 1 {
+		opts |= PassAfterNonOption
+	}
+	p := NewNamedParser("prog", opts)
+	p.AddGroup("Application Options", "", &c09Root{})
+	p.AddCommand("run", "", "", run)
+	F := v.String(v.Shape("lf"))
+	_, _, isInt := refInt(F, 10, 64, true)
+	place := v.Choice(5)
+	var argv []string
+	switch place {
+	case 0:
+		v.Assume(!refOptionSyntax(F) && F != "--")
+		argv = []string{"run", F}
+	case 1:
+		argv = []string{"run", "--", F}
+	case 2:
+		// (under PassAfterNonOption the `--` after the word 5 is itself passed
+		// through to the int slice - a different, legitimate failure)
+		v.Assume(opts&PassAfterNonOption == 0)
+		argv = []string{"run", "5", "--", F}
+	case 3:
+		argv = []string{"run", "-v", "--", "7", F}
+	case 4:
+		v.Assume(!refOptionSyntax(F) && F != "--")
+		argv = []string{"run", "5", "-v", F}
+		if opts&PassAfterNonOption != 0 {
+			// everything after the first non-option is passed through
+			argv = []string{"run", "5", F}
+		}
+	}
+	rest, err := p.ParseArgs(argv)
+	vObsErr(v, err)
+	v.ObserveInt("runs", len(log.ids))
+	if !isInt {
+		v.Reach("faulty")
+		// (the error is the conversion's own error, not a typed *flags.Error)
+		v.Assert(err != nil, "a positional argument that does not convert is rejected")
+		v.Assert(len(log.ids) == 0, "nothing is executed when a positional argument does not convert")
+		return
+	}
+	v.Reach("clean")
+	v.Assert(err == nil, "a convertible positional argument parses")
+	v.Assert(len(log.ids) == 1 && log.ids[0] == "run", "exactly one command invocation after a clean parse")
+	if len(log.ids) == 1 {
+		v.Assert(v.EqStrs(log.args[0], rest) && len(rest) == 0, "all words were bound, none remains")
+	}
+}
+
 func init() {
+	vHarnesses["H_C09_posfault"] = H_C09_posfault
 	vHarnesses["H_C09_exec"] = H_C09_exec
 	vHarnesses["H_C09_completion"] = H_C09_completion
 }
